@@ -341,6 +341,9 @@ func RequestPlacement(sp *spec.Spec, sv *spec.Service, m *spec.Method, ex *rt.Ex
 			memberNames("body", want, got, func(path, wantName, gotName string) {
 				v.add("wire-placement:body:member-name:request", "JSON body member at %s is spelled %q on the wire, the design names it %q", path, gotName, wantName)
 			})
+			unionWire("body", want, got, func(problem, what string) { // union.go
+				v.add("wire-placement:body:union:"+problem+":request", "%s", what)
+			})
 		}
 	}
 }
@@ -502,6 +505,9 @@ func ResponsePlacement(sp *spec.Spec, m *spec.Method, ex *rt.Exchange, v *Verdic
 		}
 		memberNames("body", o, map[string]any(body), func(path, wantName, gotName string) {
 			v.add("wire-placement:body:member-name:response", "JSON body member at %s is spelled %q on the wire, the design names it %q", path, gotName, wantName)
+		})
+		unionWire("body", o, map[string]any(body), func(problem, what string) { // union.go
+			v.add("wire-placement:body:union:"+problem+":response", "%s", what)
 		})
 	}
 }
